@@ -1,7 +1,9 @@
 ---------------------------- MODULE MultiDeviceMC ----------------------------
 EXTENDS MultiDevice, Json
 
-CONSTANTS MaxDepth, EmitOn
+CONSTANTS MaxDepth, EmitOn,
+          Nested      \* TRUE: the second node lives in a second graph - the body of the first node - and captures
+                      \* values of the main graph (annotations on captured values, scoped name resolution on reload)
 
 Names4  == <<"a", "b", "c", "d">>
 Consts4 == <<TRUE, TRUE, FALSE, TRUE>>
@@ -23,13 +25,27 @@ SeedCalls ==
      [C("AddCfg") EXCEPT !.name = "c1", !.i = 2],
      ShardCall(1, 5, 1, 0, 2, <<0, 1>>, NoStage) >>
 
+\* nested variant: in v1, v2 ; n1(v1, v2) -> o5, o6 [body: graph 2] ; graph 2: n2(o5, v1) -> o7 (renamed "y") ; out o5 / o7
+SeedCallsNested ==
+  << [C("IOAppend") EXCEPT !.k = "in", !.g = 1, !.v = 1],
+     [C("IOAppend") EXCEPT !.k = "in", !.g = 1, !.v = 2],
+     [C("NewNode") EXCEPT !.vs = <<1, 2>>, !.i = 2, !.g = 1],
+     [C("NewNode") EXCEPT !.vs = <<5, 1>>, !.i = 1, !.g = 2],
+     [C("SetName") EXCEPT !.v = 7, !.name = "y"],
+     [C("IOAppend") EXCEPT !.k = "out", !.g = 1, !.v = 5],
+     [C("IOAppend") EXCEPT !.k = "out", !.g = 2, !.v = 7],
+     [C("AddCfg") EXCEPT !.name = "c1", !.i = 2],
+     ShardCall(1, 5, 1, 0, 2, <<0, 1>>, NoStage),
+     ShardCall(2, 1, 1, 0, 2, <<0, 1>>, NoStage) >>
+Seeds == IF Nested THEN SeedCallsNested ELSE SeedCalls
+
 Empty ==
-  [s |-> EmptyState(1, Names4, Consts4), rank |-> <<2, -1, -1, 2, 2, -1, 2>>,
+  [s |-> EmptyState(IF Nested THEN 2 ELSE 1, Names4, Consts4), rank |-> <<2, -1, -1, 2, 2, -1, 2>>,
    cfgs |-> <<>>, cname |-> <<>>, cndev |-> <<>>, ann |-> <<>>]
 
 Init ==
-  /\ st = MApplyAll(Empty, SeedCalls)
-  /\ hist = MOutcomes(Empty, SeedCalls)
+  /\ st = MApplyAll(Empty, Seeds)
+  /\ hist = MOutcomes(Empty, Seeds)
   /\ last = [c |-> NoCall, out |-> "init"]
 
 N == 1..Len(st.s.nIn)
@@ -62,13 +78,14 @@ View == st
 
 Compact(c) == <<c.op, c.g, c.n, c.v, c.w, c.i, c.j, c.vs, c.ws, c.k, c.flag, c.name>>
 Row(c) == LET r == MApply(st, c) IN
-          IF r.out = "ok" THEN [c |-> Compact(c), out |-> r.out, post |-> r.s, ser |-> SerAnn(r.s)]
+          IF r.out = "ok" THEN [c |-> Compact(c), out |-> r.out, post |-> r.s, ser |-> SerAnn(r.s),
+                                ser2 |-> IF Nested THEN SerAnnG(r.s, 2) ELSE <<>>]
           ELSE [c |-> Compact(c), out |-> r.out]
 EmitState ==
   (EmitOn /\ Bound) =>
      LET cs == SetToSeq(Calls) IN
      PrintT(ToJson([h |-> [x \in DOMAIN hist |-> <<Compact(hist[x].c), hist[x].out>>],
-                    pre |-> st, ser |-> SerAnn(st),
+                    pre |-> st, ser |-> SerAnn(st), ser2 |-> IF Nested THEN SerAnnG(st, 2) ELSE <<>>,
                     rows |-> [x \in DOMAIN cs |-> Row(cs[x])]]))
 
 InvNoDangle == NoDangle(st)
